@@ -305,3 +305,109 @@ def coverage(table, family, results):
     for m, t, r in results:
         used.update(m["used"])
     return len(ids), sorted(set(ids) - used)
+
+
+# ---------------------------------------------------------------------------- long lists, self-nesting
+
+def _incat(v, c):
+    cats = set(v["cats"])
+    return (c in cats or (c == "inner" and "stmt" in cats) or (c == "nsitem" and cats & {"stmt", "inner"})
+            or (c == "top" and cats & {"stmt", "inner", "toponly"}) or (c == "top1" and cats & {"stmt", "inner", "toponly", "toponly_first"}))
+
+
+def _requests(fill):
+    """child requests of a variant's fill: list of (cat, minlevel, lo) in any order"""
+    out = []
+    for x in fill.values():
+        if not isinstance(x, dict):
+            continue
+        f = x.get("f")
+        if f == "ch":
+            out.append((x["cat"], x.get("min", 0), 1))
+        elif f == "ls":
+            out.append((x["cat"], x.get("min", 0), x.get("lo", 0)))
+        elif f == "nd":
+            out += _requests(x["fill"])
+        elif f == "sq":
+            for it in x["items"]:
+                out += _requests({"_": it})
+    return out
+
+
+WRAPPERS = ("StmtExpression", "ExprBrackets", "ExprFunctionCall", "Argument", "StmtStmtList", "ExprArray/short", "ExprArrayItem", "ExprClosure")
+
+
+def glue_set(table, family, wrappers=WRAPPERS):
+    """the glue of SyntaxGen's self-nesting mode: for every category the cheapest variant that can close a derivation
+    (fixpoint of 1 + the cost of the mandatory children), plus a few wrappers through which a construct can contain itself"""
+    fams = ("both", "7", "7g") if family == "7" else ("both", family)
+    vs = [v for v in table["variants"] if v["fam"] in fams]
+    cats = set()
+    for v in vs:
+        cats |= set(v["cats"])
+        for c, _, _ in _requests(v["fill"]):
+            cats.add(c)
+    cats |= {"inner", "nsitem", "top", "top1"}
+    INF = 10 ** 6
+    cost = {v["id"]: INF for v in vs}
+    best = {}
+
+    def catcost(c, m):
+        k = [(cost[v["id"]], v["id"]) for v in vs if _incat(v, c) and v["lvl"] >= m]
+        return min(k) if k else (INF, None)
+    for _ in range(40):
+        changed = False
+        for v in vs:
+            t = 1
+            for c, m, lo in _requests(v["fill"]):
+                if lo > 0:
+                    t += lo * catcost(c, m)[0]
+            t = min(t, INF)
+            if t < cost[v["id"]]:
+                cost[v["id"]] = t
+                changed = True
+        if not changed:
+            break
+    glue = set()
+    todo = [(c, 0) for c in cats] + [(c, m) for v in vs for c, m, lo in _requests(v["fill"])]
+    for c, m in todo:
+        k, vid = catcost(c, m)
+        if vid is not None and k < INF:
+            glue.add(vid)
+    byid = {v["id"]: v for v in vs}
+    glue |= {w for w in wrappers if w in byid}
+    # close: the mandatory children of a glue variant need their closers too (already in by construction of todo)
+    return sorted(glue)
+
+
+def self_nesting_programs(check, family, seed, num, weight=5, depth=4):
+    """SyntaxGen's self-nesting mode (simulation): derivations that use ONE variant V (any number of times, at most `weight` nodes
+    that are not closers) and glue only - V inside V through brackets, call arguments, array items, blocks, closures, or directly.
+    Only derivations in which V occurs at least twice are kept."""
+    table, _ = syntax.generate(check, family, num=1, seed=seed, depth=1)
+    g = glue_set(table, family)
+    table, behs = syntax.generate(check, family, rootcat="stmt", rootmax=1, depth=depth, num=num, seed=seed + 41, maxchoices=weight, glue=g,
+                                  wrappers=[w for w in WRAPPERS if w in g], timeout=900)
+    gs = set(g)
+    vs = table["variants"]
+    keep = [b for b in behs if len([1 for c in b["choices"][1:] if vs[c[0] - 1]["id"] not in gs]) >= 2]
+    return table, keep, g
+
+
+def long_list_programs(check, family, seed, num, lens=(4, 5, 6, 7, 8, 9)):
+    """SyntaxGen's long-list mode (simulation): every repeatable list has 4 .. 9 items"""
+    return syntax.generate(check, family, rootcat="top", rootmax=1, depth=2, num=num, seed=seed + 31, listlens=list(lens))
+
+
+def nesting_operator_programs(check, family, seed, weight):
+    """SyntaxGen's self-nesting mode, EXHAUSTIVE over the operator fragment: for every operator variant V (binary, assignment, unary,
+    cast, ternary ...) all derivations with at most `weight` nodes that are V, brackets or a call - V in every operand position of V,
+    directly, in brackets and in a call argument"""
+    table, _ = syntax.generate(check, family, num=1, seed=seed, depth=1)
+    fams = ("both", "7", "7g") if family == "7" else ("both", family)
+    ops = [v["id"] for v in table["variants"] if v["fam"] in fams and "expr" in v["cats"] and v["lvl"] < 30 and not v["leaf"]
+           and all(c == "expr" for c, _, _ in _requests(v["fill"]))]
+    glue = ["StmtExpression", "ExprBrackets", "ExprFunctionCall", "Argument", "ExprVariable", "Name", "NamePart"]
+    table, behs = syntax.generate(check, family, rootcat="stmt", rootmax=1, depth=weight + 3, exhaustive=True, maxchoices=weight, allowed=ops + glue,
+                                  glue=glue, wrappers=["ExprBrackets", "ExprFunctionCall"], timeout=2400)
+    return table, behs, ops
